@@ -74,16 +74,20 @@ def canon_in(triples):
     return out
 
 
+def _no_constant(x):
+    raise ValueError("%s is not a JSON token (RFC 8259)" % x)
+
+
 def wellformed(fmt, data):
     try:
         if fmt in XML_FORMATS:
             xml.sax.parseString(data.encode("utf-8") if isinstance(data, str) else data, xml.sax.ContentHandler())
         elif fmt in JSON_FORMATS and fmt != "hext":
-            json.loads(data)
+            json.loads(data, parse_constant=_no_constant)
         elif fmt == "hext":
             for line in (data.decode("utf-8") if isinstance(data, bytes) else data).splitlines():
                 if line.strip():
-                    json.loads(line)
+                    json.loads(line, parse_constant=_no_constant)
         return True
     except Exception:  # noqa: BLE001
         return False
